@@ -143,7 +143,7 @@ def operation_preserves_invariant(op, n):
         model.insert(idx, x)
     elif op == "extend":
         xs = [pick_item("x0", items)]
-        if H.pick("two", [False, True]):
+        if n < 2 and H.pick("two", [False, True]):
             xs.append(pick_item("x1", items + xs))
         if H.pick("as_iterator", [False, True]):
             nil.extend(iter(xs))  # a one-shot iterable, as list.extend accepts
